@@ -292,6 +292,7 @@ fn main() {
     std::env::set_var("TMPDIR", work.join("reftmp"));
     match cmd {
         "replay" => std::process::exit(replay_cmd(&args[2])),
+        "replay-macro" => std::process::exit(replay_macro_cmd(&args[2])),
         "one" => {
             let seed: u64 = args[2].parse().unwrap();
             let faults = args.iter().any(|a| a == "--faults");
@@ -550,6 +551,24 @@ fn check(property: &str, tier: &str, base_seed: u64, runs_override: Option<u64>)
     for l in &known_lines {
         println!("{l}");
     }
+    // ---- macro half
+    let mac = match check_macro(property, tier, base_seed, runs_override) {
+        Ok(m) => m,
+        Err(e) => {
+            eprintln!("HARNESS: {e}");
+            return 2;
+        }
+    };
+    for l in &mac.known_lines {
+        println!("{l}");
+    }
+    if mac.exit_code != 0 {
+        exit_code = mac.exit_code;
+    }
+    n_viol += mac.n_viol;
+    total += mac.evaluations;
+    let distinct_total = distinct.len() as u64 + mac.distinct;
+    samples.extend(mac.samples.clone());
     let wall = t0.elapsed().as_secs_f64();
     let mut ev = Evidence {
         property_id: property.to_string(),
@@ -557,8 +576,8 @@ fn check(property: &str, tier: &str, base_seed: u64, runs_override: Option<u64>)
         seed: base_seed,
         level: if property == "C15" { "fault_enumeration".into() } else { "exploration".into() },
         evaluations: total,
-        distinct_nontrivial: distinct.len() as u64,
-        rule: "one evaluation = one execution of the real cargo-typify binary in a private directory under the LD_PRELOAD shim (owned hash seed, I/O op log, optional fault plan) with a seeded document (repository fixture or generated x-rust-type document), option set, output mode, input name, environment and fault; judged against the builder API run in the harness process for the settings the options mean. Every run is non-trivial (a full conversion is attempted); distinct = distinct (document, output mode, argv, fault kind, input name) tuples, counted in a set".into(),
+        distinct_nontrivial: distinct_total,
+        rule: "one evaluation = one execution of the real cargo-typify binary in a private directory under the LD_PRELOAD shim (owned hash seed, I/O op log, optional fault plan) with a seeded document (repository fixture or generated x-rust-type document), option set, output mode, input name, environment and fault; judged against the builder API run in the harness process for the settings the options mean. Every run is non-trivial (a full conversion is attempted); distinct = distinct (document, output mode, argv, fault kind, input name) tuples, counted in a set. Macro half: one evaluation = one import_types! invocation (seeded document and option block) expanded by real rustc under 2-4 hash seeds plus the expansion of the builder's tokens for the settings the block means; distinct = distinct (document, invocation text)".into(),
         samples,
         wall_s: wall,
         violations: n_viol,
@@ -582,6 +601,7 @@ fn check(property: &str, tier: &str, base_seed: u64, runs_override: Option<u64>)
     ev.extra.insert("distinct_hash_seeds".into(), json!(hash_seeds.len()));
     ev.extra.insert("finding_groups".into(), json!(groups.iter().map(|(k, (_, c))| json!({"key": k, "runs": c})).collect::<Vec<_>>()));
     ev.extra.insert("known_findings_matched".into(), json!(known_lines.len()));
+    ev.extra.insert("macro".into(), mac.stats.clone());
     ev.extra.insert("components_real".into(), json!(["cargo-typify binary built from /repo", "rustfmt 1.80.1 (fault-free runs)", "kernel file system", "typify builder API as reference (in the harness process)"]));
     ev.extra.insert("components_stub".into(), json!(["verif-stubfmt in formatter-fault runs", "libc open/read/write/getrandom through the LD_PRELOAD shim"]));
     if ev.write().is_err() {
@@ -598,4 +618,319 @@ fn check(property: &str, tier: &str, base_seed: u64, runs_override: Option<u64>)
         known_lines.len()
     );
     exit_code
+}
+
+// ------------------------------------------------------------------ macro half
+
+#[derive(Serialize, Deserialize, Clone, Debug)]
+struct MacroReplay {
+    property: String,
+    engine: String,
+    invariant: String,
+    finding_key: String,
+    observed: String,
+    expected: String,
+    run: verifsim::macrosim::MacroRun,
+    extra_hash_seeds: Vec<u64>,
+    macro_source: String,
+}
+
+fn replay_macro_cmd(path: &str) -> i32 {
+    use verifsim::macrosim::*;
+    let text = match std::fs::read_to_string(path) {
+        Ok(t) => t,
+        Err(e) => {
+            eprintln!("HARNESS: cannot read {path}: {e}");
+            return 2;
+        }
+    };
+    let r: MacroReplay = match serde_json::from_str(&text) {
+        Ok(r) => r,
+        Err(e) => {
+            eprintln!("HARNESS: {path} is not a procsim macro replay file: {e}");
+            return 2;
+        }
+    };
+    let tools = match MacroTools::prepare() {
+        Ok(t) => t,
+        Err(e) => {
+            eprintln!("HARNESS: {e}");
+            return 2;
+        }
+    };
+    let work = report::verif_root().join(".work/macro");
+    let _ = std::fs::create_dir_all(&work);
+    println!("{}", r.run.options.source("schema.json"));
+    match execute_macro(&r.run, &tools, &work, &r.extra_hash_seeds) {
+        Ok(o) => {
+            println!("macro_ok={} builder_ok={} items={} expansions={}", o.macro_ok, o.builder_ok, o.items, o.expansions);
+            if let Some(x) = o.violations.iter().find(|x| x.key == r.finding_key) {
+                println!("REPRODUCED {} {}: {}", x.oracle, x.key, x.observed);
+                println!("VIOLATION property={} replay={}", r.property, path);
+                1
+            } else {
+                println!("NOT-REPRODUCED {}", r.finding_key);
+                for x in &o.violations {
+                    println!("  (other: {} {})", x.oracle, x.key);
+                }
+                0
+            }
+        }
+        Err(e) => {
+            eprintln!("HARNESS: {e}");
+            2
+        }
+    }
+}
+
+struct MacroStageResult {
+    exit_code: i32,
+    evaluations: u64,
+    distinct: u64,
+    n_viol: u64,
+    known_lines: BTreeSet<String>,
+    stats: Value,
+    samples: Vec<Value>,
+}
+
+fn shrink_macro(
+    run: &verifsim::macrosim::MacroRun,
+    key: &str,
+    tools: &verifsim::macrosim::MacroTools,
+    work: &std::path::Path,
+    extra: &[u64],
+) -> verifsim::macrosim::MacroRun {
+    use verifsim::macrosim::*;
+    let mut cur = run.clone();
+    let still = |c: &MacroRun| -> bool {
+        execute_macro(c, tools, work, extra).map(|o| o.violations.iter().any(|x| x.key == key)).unwrap_or(false)
+    };
+    let mut progress = true;
+    let mut budget = 80;
+    while progress && budget > 0 {
+        progress = false;
+        let mut cands: Vec<MacroRun> = Vec::new();
+        macro_rules! drop_each {
+            ($field:ident) => {
+                for i in 0..cur.options.$field.len() {
+                    let mut c = cur.clone();
+                    c.options.$field.remove(i);
+                    cands.push(c);
+                }
+            };
+        }
+        drop_each!(crates);
+        drop_each!(derives);
+        drop_each!(patches);
+        drop_each!(replaces);
+        drop_each!(converts);
+        for f in 0..3 {
+            let mut c = cur.clone();
+            match f {
+                0 if c.options.map_type.is_some() => c.options.map_type = None,
+                1 if c.options.unknown_crates.is_some() => c.options.unknown_crates = None,
+                2 if c.options.struct_builder.is_some() => c.options.struct_builder = None,
+                _ => continue,
+            }
+            cands.push(c);
+        }
+        if cur.env_fault != "none" {
+            let mut c = cur.clone();
+            c.env_fault = "none".into();
+            cands.push(c);
+        }
+        if cur.doc_name != "min" {
+            let mut c = cur.clone();
+            c.doc_name = "min".into();
+            c.doc = r#"{"$schema":"http://json-schema.org/draft-07/schema#","title":"Min","type":"object","properties":{"a":{"type":"string"}}}"#.into();
+            cands.push(c);
+        }
+        for c in cands {
+            budget -= 1;
+            if budget <= 0 {
+                break;
+            }
+            if still(&c) {
+                cur = c;
+                progress = true;
+                break;
+            }
+        }
+    }
+    cur
+}
+
+fn check_macro(property: &str, tier: &str, base_seed: u64, runs_override: Option<u64>) -> Result<MacroStageResult, String> {
+    use verifsim::macrosim::*;
+    let tools = MacroTools::prepare()?;
+    let work = report::verif_root().join(".work/macro");
+    std::fs::create_dir_all(&work).map_err(|e| e.to_string())?;
+    let fixtures = fixture_corpus();
+    let thorough = tier == "thorough";
+    let (n, extra_n, stream): (u64, usize, u64) = match property {
+        "C15" => (if thorough { 1600 } else { 160 }, 1, 31),
+        _ => (if thorough { 900 } else { 96 }, 3, 32),
+    };
+    let n = runs_override.map(|r| std::cmp::max(8, r / 4)).unwrap_or(n);
+    let known = report::load_known_findings();
+    let results: Mutex<Vec<(u64, MacroRun, Vec<u64>, MacroOutcome)>> = Mutex::new(Vec::new());
+    let errs: Mutex<Vec<String>> = Mutex::new(Vec::new());
+    let t0 = Instant::now();
+    std::thread::scope(|sc| {
+        for w in 0..16u64 {
+            let tools = &tools;
+            let fixtures = &fixtures;
+            let results = &results;
+            let errs = &errs;
+            let work = &work;
+            sc.spawn(move || {
+                let mut i = w;
+                while i < n {
+                    let seed = derive_seed(base_seed, stream, i);
+                    let run = gen_macro_run(seed, fixtures);
+                    let extra: Vec<u64> = (0..extra_n as u64).map(|k| derive_seed(seed, 77, k) >> 1).collect();
+                    match execute_macro(&run, tools, work, &extra) {
+                        Ok(o) => results.lock().unwrap().push((i, run, extra, o)),
+                        Err(e) => errs.lock().unwrap().push(format!("macro seed {seed}: {e}")),
+                    }
+                    i += 16;
+                }
+            });
+        }
+    });
+    let errs = errs.into_inner().unwrap();
+    if !errs.is_empty() {
+        return Err(errs.into_iter().take(5).collect::<Vec<_>>().join("; "));
+    }
+    let mut res = results.into_inner().unwrap();
+    res.sort_by_key(|r| r.0);
+    let mut groups: BTreeMap<String, (usize, u64)> = BTreeMap::new();
+    let mut expansions = 0u64;
+    let mut both_ok = 0u64;
+    let mut builder_rejects = 0u64;
+    let mut aliasing = 0u64;
+    let mut distinct: BTreeSet<u64> = BTreeSet::new();
+    let mut option_kinds: BTreeMap<String, u64> = BTreeMap::new();
+    let mut env_faults: BTreeMap<String, u64> = BTreeMap::new();
+    for (idx, (_, run, _, o)) in res.iter().enumerate() {
+        expansions += o.expansions as u64;
+        if o.macro_ok && o.builder_ok {
+            both_ok += 1;
+        }
+        if !o.builder_ok {
+            builder_rejects += 1;
+        }
+        if run.options.aliasing() {
+            aliasing += 1;
+        }
+        *env_faults.entry(run.env_fault.clone()).or_insert(0) += 1;
+        distinct.insert(fnv64(format!("{}|{}", run.doc_name, run.options.source("s")).as_bytes()));
+        let ok = &run.options;
+        for (k, present) in [
+            ("derives", !ok.derives.is_empty()),
+            ("struct_builder", ok.struct_builder.is_some()),
+            ("unknown_crates", ok.unknown_crates.is_some()),
+            ("crates", !ok.crates.is_empty()),
+            ("crates:renamed", ok.crates.iter().any(|c| c.1.is_some())),
+            ("map_type", ok.map_type.is_some()),
+            ("patch", !ok.patches.is_empty()),
+            ("replace", !ok.replaces.is_empty()),
+            ("replace:impls", ok.replaces.iter().any(|r| !r.2.is_empty())),
+            ("convert", !ok.converts.is_empty()),
+        ] {
+            if present {
+                *option_kinds.entry(k.to_string()).or_insert(0) += 1;
+            }
+        }
+        for x in &o.violations {
+            let relevant = match property {
+                "C12" => x.oracle == "O5",
+                _ => x.oracle != "O5",
+            };
+            if !relevant {
+                continue;
+            }
+            match groups.get_mut(&x.key) {
+                Some(g) => g.1 += 1,
+                None => {
+                    groups.insert(x.key.clone(), (idx, 1));
+                }
+            }
+        }
+    }
+    let mut exit_code = 0;
+    let mut n_viol = 0;
+    let mut known_lines = BTreeSet::new();
+    for (key, (idx, count)) in &groups {
+        let (_, run, extra, o) = &res[*idx];
+        let x = o.violations.iter().find(|x| &x.key == key).unwrap();
+        if let Some(k) = report::match_known(&known, property, &x.oracle, key) {
+            known_lines.insert(format!("KNOWN-FINDING: property={property} {}:{} — {} ({} runs)", x.oracle, key, k.what, count));
+            continue;
+        }
+        let min = shrink_macro(run, key, &tools, &work, extra);
+        let rf = MacroReplay {
+            property: property.to_string(),
+            engine: "procsim-macro".into(),
+            invariant: x.oracle.clone(),
+            finding_key: key.clone(),
+            observed: x.observed.clone(),
+            expected: x.expected.clone(),
+            macro_source: min.options.source("schema.json"),
+            run: min,
+            extra_hash_seeds: extra.clone(),
+        };
+        let dir = report::verif_root().join("replays");
+        let _ = std::fs::create_dir_all(&dir);
+        let safe: String = key.chars().map(|c| if c.is_ascii_alphanumeric() || c == '-' { c } else { '_' }).take(70).collect();
+        let path: PathBuf = dir.join(format!("{property}-{safe}-{}.json", run.seed));
+        std::fs::write(&path, serde_json::to_string_pretty(&rf).unwrap()).map_err(|e| e.to_string())?;
+        let exe = std::env::current_exe().unwrap();
+        let out = std::process::Command::new(exe).arg("replay-macro").arg(&path).output().map_err(|e| e.to_string())?;
+        if out.status.code() == Some(1) {
+            n_viol += 1;
+            exit_code = 1;
+            println!("violation {}:{} ({} runs, first seed {}): {}", x.oracle, key, count, run.seed, x.observed.chars().take(400).collect::<String>());
+            println!("VIOLATION property={property} replay={}", path.display());
+        } else {
+            return Err(format!(
+                "replay of {} did not reproduce (exit {:?}):\n{}",
+                path.display(),
+                out.status.code(),
+                String::from_utf8_lossy(&out.stdout)
+            ));
+        }
+    }
+    let samples: Vec<Value> = res
+        .iter()
+        .take(2)
+        .map(|(_, run, extra, o)| json!({"stage": "macro", "seed": run.seed, "doc": run.doc_name, "invocation": run.options.source("schema.json"), "hash_seed": run.hash_seed, "other_hash_seeds": extra, "env_fault": run.env_fault, "macro_ok": o.macro_ok, "builder_ok": o.builder_ok, "items": o.items}))
+        .collect();
+    println!(
+        "{} macro workloads, {} rustc expansions ({} both front-ends ok, {} rejected by the builder, {} aliasing blocks), {:.1}s; {} new violation(s), {} known finding(s)",
+        res.len(),
+        expansions,
+        both_ok,
+        builder_rejects,
+        aliasing,
+        t0.elapsed().as_secs_f64(),
+        n_viol,
+        known_lines.len()
+    );
+    Ok(MacroStageResult {
+        exit_code,
+        evaluations: res.len() as u64,
+        distinct: distinct.len() as u64,
+        n_viol,
+        known_lines,
+        stats: json!({
+            "workloads": res.len(), "rustc_expansions": expansions, "both_front_ends_ok": both_ok,
+            "builder_rejects": builder_rejects, "aliasing_blocks": aliasing, "option_kinds_drawn": option_kinds,
+            "environment_faults": env_faults, "hash_seeds_per_workload": extra_n + 1,
+            "finding_groups": groups.iter().map(|(k, (_, c))| json!({"key": k, "runs": c})).collect::<Vec<_>>(),
+            "components_real": ["typify-macro dylib built from /repo, loaded by real rustc 1.80.1 (-Zunpretty=expanded)", "serde_derive and std derives (expanded on both sides)"],
+            "components_stub": ["getrandom of the rustc process (LD_PRELOAD shim)"],
+        }),
+        samples,
+    })
 }
